@@ -857,7 +857,8 @@ fn capacity_preds(a: &Analysis, v: &mut Vec<Viol>, f: &mut Feat) {
                     detail: format!("{} registered as a blocked sender on an unbounded channel", o.k.name()),
                 });
             }
-            if o.k.is_send() && o.res == Res::Bool(false) && a.on[i].try_lock_failed == 0 {
+            // only the realtime variants may refuse because the lock was busy
+            if o.k.is_send() && o.res == Res::Bool(false) && !(o.k.is_rt() && a.on[i].try_lock_failed > 0) {
                 v.push(Viol {
                     pred: "unbounded_send_refused",
                     op: Some(i as u32),
